@@ -318,6 +318,24 @@ def collision_bound(shape):
     return math.exp(max(logb, -745.0))
 
 
+def _multinomial_collision_bound(p, n):
+    """upper bound of P(two independent multinomial(n, p) draws coincide) <= max pmf; the pmf near the mode is evaluated
+    exactly and doubled (the largest point probability is within a factor < 2 of the value at the rounded mean)."""
+    from scipy.stats import multinomial as _mn
+
+    p = np.asarray(p, dtype=float)
+    sup = p > 0
+    if sup.sum() <= 1:
+        return 1.0
+    q = p[sup] / p[sup].sum()
+    x = np.floor(n * q).astype(int)
+    rest = int(n - x.sum())
+    order = np.argsort(-(n * q - x))
+    for j in order[:rest]:
+        x[j] += 1
+    return float(min(1.0, 2.0 * _mn.pmf(x, n, q)))
+
+
 def _dummy_like(shape):
     if isinstance(shape, tuple):
         return None
@@ -830,10 +848,38 @@ class Run:
                     np.random.set_state(np1)
                 if list(alone) != list(out[j]):
                     raise Violation("R1_seed_function", f"gen_dataset: entry {j} (seed {sd}) differs from generate_data_from_prob_dist with the same seed alone", {"step": idx, "args": a, "stream": spec, "entry_index": j}, dict(sig, how="dataset_entry_alone"))
+        # ---- V3: the leaves of one output are independent draws: leaves with the same distribution and size must not be
+        # copies of one another (judged only when that is astronomically unlikely)
+        if crafted is None:
+            self.check_leaf_independence(idx, entry, a, spec, shape, out, sig)
         # ---- V2 accumulation (independent streams only)
         if k == "gen" or (k == "int" and self._first_use(entry, spec, a)):
             self.accumulate(shape, out)
         return out, shape
+
+    def check_leaf_independence(self, idx, entry, a, spec, shape, out, sig):
+        groups = {}
+        for leaf, part, where in _walk(shape, out):
+            kind, p, n = leaf
+            if kind != "empi" or n < 50:
+                continue
+            key = (digest(np.asarray(p)), int(n))
+            groups.setdefault(key, []).append((np.asarray(p, dtype=float), n, digest(_canon(part))))
+        for key, leaves in groups.items():
+            if len(leaves) < 2:
+                continue
+            self.bump("oracle_checks", "V3_leaf_independence")
+            p, n = leaves[0][0], leaves[0][1]
+            cb = _multinomial_collision_bound(p, n)
+            k = len(leaves)
+            m = k - len({d for _, _, d in leaves})
+            if m == 0:
+                continue
+            p_event = (k * (k - 1) / 2 * cb) ** m
+            if p_event < 1e-12:
+                raise Violation("V3_leaf_independence", f"{entry}: {m} of {k} empirical distributions with the same distribution and size n={n} are identical to another one of the same output (probability <= {p_event:.1e} for independent draws)",
+                                {"step": idx, "entry": entry, "args": a, "stream": spec, "p": p.tolist()}, dict(sig, how="copies_within_output"))
+            self.bump("probes", "V3_undecided_coincidence")
 
     @staticmethod
     def _consumes(shape):
@@ -1017,6 +1063,10 @@ class Run:
                 StandardQpt(tst, tpv, seed_data=s)
             else:
                 StandardQmpt(tst, tpv, num_outcomes=2, seed_data=s)
+            self.bump("oracle_checks", "R4_object_seed")
+            if _np_state_digest() != _np_state_digest(np.random.RandomState(s).get_state()):
+                raise Violation("R4_object_seed", f"constructing {st['which']} with seed_data={s} did not leave the global random state seeded with {s}", {"which": st["which"], "s": s},
+                                {"op": "pollute", "kind": "ctor_with_seed_data", "which": st["which"]})
             self.stats["probes"]["_armed_ctor"] = 1
             self.stats["probes"]["_armed_reseed"] = 1
         elif kind == "reset_seed":
@@ -1024,6 +1074,13 @@ class Run:
                 self.world.exp.reset_seed_data(st["s"])
             else:
                 self.world.tomo[st["t"]].reset_seed(st["s"])
+            # R4: the data seed of an object is an explicit seed: after it is (re)set, a request without a stream must be a
+            # function of that seed - i.e. the global state is exactly what numpy's own seeding with that integer gives
+            self.bump("oracle_checks", "R4_object_seed")
+            want = np.random.RandomState(st["s"]).get_state()
+            if _np_state_digest() != _np_state_digest(want):
+                raise Violation("R4_object_seed", f"after reset of the data seed to {st['s']} on {st['t']} the global random state is not the state seeded with {st['s']}",
+                                {"t": st["t"], "s": st["s"]}, {"op": "pollute", "kind": "reset_seed", "t": "exp" if st["t"] == "exp" else "tomo"})
             self.stats["probes"]["_armed_ctor"] = 1
             self.stats["probes"]["_armed_reseed"] = 1
         elif kind == "foreign_draws_on_shared_generator":
